@@ -4,6 +4,14 @@ TB = ("Trusted: Lean 4.33 kernel (axioms at most propext, Classical.choice, Quot
       "the hand-written model, tied to the code only by the correspondence run (differential testing of the model's executable definitions against the real crate on generated and enumerated inputs); "
       "SHA-256 as a free term algebra. ")
 TEXT = {
+    "C14": {
+        "text": "One round-trip theorem per modelled type (for every value within explicit size guards and any trailing bytes): decode(encode v ++ rest) = (v, rest); encoding is a function (deterministic); the EventKind tag tables, regenerated from the source each run, are proved mutually inverse and injective, and every variant's written kind is proved to have a decoder arm rebuilding that variant. Byte-exact tie: the model decodes and re-encodes the real encoder's output and thousands of mutations, verdict and canonical bytes must equal the real decoder's.",
+        "note": TB + "Modelled rather than verified: binary-stream primitives; types outside the model are listed in evidence (assumptions); protobuf wire bindings not yet modelled.",
+    },
+    "C15": {
+        "text": "Theorem `Good d` for every modelled decoder and EVERY input byte string: no panic, no single allocation request above the 16 MiB cap, unread rest is a suffix of the input, termination by construction; plus decide-checked facts on the regenerated decoder-arm tables (no panicking arm). Tie: truncation at every offset, bit flips, hostile length fields, splices, kind-tag substitution over the u16 space, short random strings into every decoder entry point, under catch_unwind with an allocation-tracking allocator; model verdict must equal the real decoder's.",
+        "note": TB + "Partial: allocator abort and stack depth are runtime behaviour outside the model; decoders outside the core binary format (FormatStream, archives, URLs, tokens, HTTP bodies) not yet modelled.",
+    },
     "C06": {
         "text": "Invariant proved by induction over arbitrary operation sequences on any number of co-resident logs: the in-memory tree equals the stored commits in order for every log, hence re-opening yields the same tree; stored commits are hashes of their bytes (for well-formed supplied records); append order/timestamps preserved; rewind keeps a prefix; operations on one log leave every other log's rows and tree untouched. One model for both backends (the repaired code behaves identically), each backend tied to it by generated scripts over 2-4 logs sharing a table/directory with duplicate events.",
         "note": TB + "Modelled rather than verified: sqlite (ordered rows, atomic transactions), file system (a log file is its record list), FormatStream iteration; fsync/durability not modelled.",
